@@ -3,7 +3,7 @@
    [parse_trace tbl d] is the model of io_drawer.trace.parse_trace_data (Model/Trace.v) over the parsed
    trace-string table [tbl]; the right-hand sides are specification-side definitions (Spec/TraceSpec.v). *)
 From Coq Require Import List NArith ZArith Bool Arith.
-From PV Require Gen.Regexes Spec.PublishedRegexes Model.StreamProg Gen.Readers Proofs.ReaderProgFacts.
+From PV Require Gen.Regexes Spec.PublishedRegexes Model.StreamProg Gen.Readers Proofs.ReaderProgFacts Spec.PublishedCalloutLoop.
 From PV Require Import Base.Bytes Base.Lit Model.Hexdump Model.TraceFmt Model.Trace Spec.TraceSpec Gen.Tables
                        Proofs.TraceFacts.
 Import ListNotations.
@@ -160,6 +160,16 @@ Theorem C15_source_args : forall data,
   end.
 Proof. exact ReaderProgFacts.args_prog_correct. Qed.
 Print Assumptions C15_source_args.
+(* TraceBuffer.read: the translated condition of its loop over the entries is the model's `idx <? size` (read_entries), at every
+   index and declared size; the loop body (a fresh entry, stop at the first that cannot be read, keep it) and the statements
+   around the loop (read the header or return False; return True) are the published text *)
+Theorem C15_source_buffer_loop :
+  (forall size idx d mems,
+     StreamProg.evc Gen.Readers.guard_tracebuf (StreamProg.mkS d (Z.of_N idx) [(L "self.header.size", Z.of_N size)] mems) = Some (idx <? size)) /\
+  Gen.Readers.loop_tracebuf = Spec.PublishedCalloutLoop.loop_tracebuf /\
+  Gen.Readers.around_tracebuf = Spec.PublishedCalloutLoop.around_tracebuf.
+Proof. split; [exact ReaderProgFacts.tracebuf_guard|split; reflexivity]. Qed.
+Print Assumptions C15_source_buffer_loop.
 Theorem C15_source_streams : Gen.Readers.ok_readers = true /\ Gen.Readers.streams_big_unsigned = true.
 Proof. split; reflexivity. Qed.
 Print Assumptions C15_source_streams.
